@@ -33,6 +33,8 @@ uint64_t drv_vss_pathlen(void *msg);
 /* pack n strings, count them, unpack them again; returns a digest of the reported count and lengths */
 uint64_t drv_vss_strarr(uint8_t *packed, char **strs, const uint16_t *lens, int n, char **dst);
 uint64_t drv_vss_strarr_count(uint8_t *packed, uint16_t len);
+uint64_t drv_vss_strarr_unpack(uint8_t *packed, uint16_t len, int n, char **dst, uint16_t stale_len, uint16_t *out_lens);
+uint64_t drv_can_payload_two_ways(void *pdu, uint8_t first, uint8_t second);
 uint64_t drv_generic_field(const uint8_t *desc, int n, uint8_t *pdu, int field, int set, uint64_t v);
 uint64_t drv_vss_strarr_pack(uint8_t *packed, char **strs, const uint16_t *lens, int n, uint16_t stale_len);
 #ifdef __cplusplus
